@@ -174,6 +174,15 @@ def install(flags=()):  # noqa: C901, PLR0915
 
     _PATCH_REGISTRATIONS[functools.partial] = _partial_fixed
 
+    # ---- R7: weakref dereference without gc.collect() -------------------
+    # CrossHair calls gc.collect() on every weakref dereference "to make weak references
+    # deterministic"; PipeFunc._pipelines is a WeakSet that is iterated on every call, which made
+    # gc 40% of the run time.  Every path rebuilds its pipeline objects, so no weak reference to an
+    # object of an earlier path is ever consulted.
+    import weakref as _weakref
+
+    _PATCH_REGISTRATIONS.pop(_weakref.ref.__call__, None)
+
     # ---- R2: getclosurevars ---------------------------------------------
     import inspect as _inspect
 
